@@ -6,6 +6,7 @@ package generator
 
 import (
 	"fmt"
+	"github.com/cloudwego/thriftgo/generator/backend"
 	"reflect"
 	"sort"
 	"strings"
@@ -79,3 +80,17 @@ func verifDump(sb *strings.Builder, v reflect.Value) {
 		fmt.Fprintf(sb, "%v", v)
 	}
 }
+
+// VerifOnFinished builds the private asyncPostProcess with a chosen
+// concurrency and job list and runs its OnFinished (C19 harness entry).
+func VerifOnFinished(pp backend.PostProcessor, concurrency int, paths, contents []string, f func(path string, content []byte) error) error {
+	p := newAsyncPostProcess(pp)
+	p.concurrency = concurrency
+	for i := range paths {
+		p.Add(paths[i], contents[i])
+	}
+	return p.OnFinished(f)
+}
+
+// VerifSetLog gives a zero Generator a no-op logger so that Persist can be called directly.
+func VerifSetLog(g *Generator) { g.log = backend.DummyLogFunc() }
